@@ -411,6 +411,9 @@ class CT:
                 return "#%d" % n
             e = self.pure.get(x[1])
             if e is not None:
+                if (x[2] == e["key"] and len(x[3]) == len(e["args"]) and tuple(norm(a) for a in x[3]) != tuple(norm(a) for a in e["args"])):
+                    # a term derived from this call with other arguments (e.g. a sub-slice of from_raw_parts(p, n)): print the term's own
+                    return "%s(%s)" % (short(x[2]).rsplit("::", 1)[-1], ", ".join(r(a) for a in x[3]))
                 return self.pure_text(e, depth)
             return "%s(%s)" % (short(x[2]).rsplit("::", 1)[-1], ", ".join(r(a) for a in x[3]))
         if k == "havoc":
@@ -809,11 +812,8 @@ def _path_outcome(F, fn, p, extra, hide_calls=(), renames=None):
             evs.append("#%d = %s(%s)" % (ct.ids[e["id"]], summ.call_name(e), ", ".join(_arg_text(ct, a, sn) for a, sn in zip(e["args"], e["snap"]))))
         elif e["k"] == "write":
             seg[ct.loc(e["loc"])] = ct.t(norm(ct.resolve(e["val"])))
-        elif e["k"] == "rawderef" and e["rw"] in ("r", "w"):
-            txt = "raw-%s *%s" % ("read" if e["rw"] == "r" else "write", ct.t(norm(e["ptr"])))
-            if not evs or evs[-1] != txt:
-                flush()
-                evs.append(txt)
+        elif e["k"] == "rawderef":
+            pass        # reading through a raw pointer is not an effect; writes through one are `write` events
         elif e["k"] == "intrinsic":
             flush()
             evs.append("%s(%s)" % (e["name"], ", ".join(ct.t(norm(a)) for a in e["args"])))
@@ -1103,10 +1103,33 @@ def dnf_equal(a, b, cap=400000, vtab=None, hyps=None):
     return True, None
 
 
+def struct_invariants(vtab):
+    """start <= cursor <= end for every raw-pointer cursor struct whose fields occur among the atoms (wherever the struct lives: `self`,
+    a field of self, a value handed back by an opaque call), and idx <= N for the accumulator: the invariants the constructors establish
+    and every writer preserves (C03.R1 / C05.G / C11.BX / C08)"""
+    atoms = set()
+    for v in vtab.values():
+        if isinstance(v, list):
+            for a, c, u in v:
+                atoms.add(a)
+    out = []
+    for a in atoms:
+        if a.endswith(".cursor"):
+            pre = a[:-len("cursor")]
+            if pre + "end" in atoms:
+                out.append(({pre + "end": 1, a: -1}, 0))
+            if pre + "start" in atoms:
+                out.append(({a: 1, pre + "start": -1}, 0))
+        if a.endswith(".idx") and "const<N>" in atoms:
+            out.append(({"const<N>": 1, a: -1}, 0))
+    return out
+
+
 def compare(spec, got, hyps=None):
     """spec/got: summarize() results (or their JSON). -> list of difference strings (empty = equivalent)"""
     vtab = dict(spec.get("vars") or {})
     vtab.update(got.get("vars") or {})
+    hyps = list(hyps or []) + struct_invariants(vtab)
     so = {o["text"]: _dnf_from_json(o["when"]) for o in spec["outcomes"]}
     go = {o["text"]: _dnf_from_json(o["when"]) for o in got["outcomes"]}
     diffs = []
